@@ -12,8 +12,8 @@ Ltac split_ifs H :=
          end.
 
 Ltac step_cases c m H :=
-  destruct c as [p r s t n w tr]; unfold step, step_with in H;
-  destruct m as [b| |k]; [ | | destruct k]; destruct p; simpl in H;
+  destruct c as [p r s t n w d tr]; unfold step, step_with in H;
+  destruct m as [b| |k|]; [ | | destruct k | ]; destruct p; simpl in H;
   split_ifs H; try discriminate H;
   injection H as <-; simpl in *.
 
@@ -39,13 +39,27 @@ Definition L_req (p : pc) (t : bool) (rq : bool) : Prop :=
   | _ => True
   end.
 
+(* past the wait, before the final store *)
+Definition postwait (p : pc) : bool :=
+  match p with
+  | PInit | PInitBody | PC1a | PC1b | PC1c | PStep | PStepBody | PInc | PAfter | PC2a | PC2b | PC2c | PC2d => true
+  | _ => false
+  end.
+
 Definition Inv1 (c : config) : Prop :=
-  let '(mk p r s t n w tr) := c in
+  let '(mk p r s t n w d tr) := c in
   (r = true -> runreq tr = true)
-  /\ (p = PSleep -> w = false -> r = false /\ t = false)
+  /\ (p = PSleep -> w = false -> d = false -> r = false /\ t = false)
   /\ (rae tr = Some false -> r = false)
   /\ L_epoch p n (last_thr tr)
-  /\ L_req p t (runreq tr).
+  /\ L_req p t (runreq tr)
+  (* mutual exclusion on mtx_run_ *)
+  /\ (d = true -> mutex_free p = true)
+  (* inside the loop body one of the three flags is up; between the two stores of reboot() reset_ is *)
+  /\ (postwait p = true -> (r = true \/ s = true \/ t = true) /\ (d = true -> s = true))
+  /\ (p = PC2c -> s = true \/ t = true)
+  (* the final store is reached only through teardown or a false run_condition *)
+  /\ (p = PFinal -> t = true \/ last_rc tr = Some false).
 
 Lemma inv1_init : Inv1 init.
 Proof. simpl. repeat split; intros; try discriminate; auto. Qed.
@@ -53,7 +67,7 @@ Proof. simpl. repeat split; intros; try discriminate; auto. Qed.
 Lemma inv1_step c m c' : Inv1 c -> step c m = Some c' -> Inv1 c'.
 Proof.
   intros I H. step_cases c m H;
-  destruct I as (I1 & I2 & I3 & I4 & I5);
+  destruct I as (I1 & I2 & I3 & I4 & I5 & I6 & I7 & I8 & I9);
   repeat split; intros; simpl in *;
   try discriminate; try congruence; auto;
   try (destruct I4; congruence);
@@ -63,7 +77,8 @@ Proof.
   all: try (destruct I4 as [-> I4]; simpl; auto; fail).
   all: try (destruct n; simpl in *; rewrite I4; simpl; auto; congruence).
   all: try (rewrite I4; simpl; auto; congruence).
-  all: intro E; rewrite E in I4; discriminate.
+  all: try (intro E; rewrite E in I4; discriminate).
+  all: destruct w, d; simpl in *; discriminate.
 Qed.
 
 (* ---------- teardown monitor ---------- *)
@@ -74,7 +89,7 @@ Definition late (p : pc) : bool :=
   end.
 
 Definition InvTd (c : config) : Prop :=
-  let '(mk p r s t n w tr) := c in
+  let '(mk p r s t n w d tr) := c in
   match tdm tr with
   | None => t = false
   | Some k => t = true /\ k <= 1 /\ (k = 1 -> late p = true)
@@ -101,7 +116,7 @@ Definition inep (p : pc) : bool :=
   end.
 
 Definition InvPend (c : config) : Prop :=
-  let '(mk p r s t n w tr) := c in
+  let '(mk p r s t n w d tr) := c in
   match pend tr with
   | None => True
   | Some k => k <= 1 /\ (p = PStep -> k = 0) /\ (inep p = true -> s = true)
@@ -130,11 +145,12 @@ Definition mid_ep (p : pc) : bool :=
   match p with PC1c | PStepBody | PInc => true | _ => false end.
 
 Definition InvRb (c : config) : Prop :=
-  let '(mk p r s t n w tr) := c in
+  let '(mk p r s t n w d tr) := c in
+  (d = true -> mutex_free p = true) /\
   match rbm tr with
   | None => True
-  | Some 0 => r = false /\ (inep p = true -> s = true) /\ (p = PInit -> s = true \/ t = true)
-  | Some 1 => r = false /\ p <> PInit /\ p <> PStep
+  | Some 0 => (d = false -> r = false) /\ (inep p = true -> s = true) /\ (p = PInit -> s = true \/ t = true)
+  | Some 1 => (d = false -> r = false) /\ p <> PInit /\ p <> PStep
               /\ (early_ep p = true -> s = true \/ t = true)
               /\ (mid_ep p = true -> s = true)
               /\ (prewait p = true -> t = false)
@@ -142,11 +158,13 @@ Definition InvRb (c : config) : Prop :=
   end.
 
 Lemma invrb_init : InvRb init.
-Proof. exact I. Qed.
+Proof. split; [discriminate|exact I]. Qed.
 
 Lemma invrb_step c m c' : InvRb c -> step c m = Some c' -> InvRb c'.
 Proof.
-  intros I H. step_cases c m H;
+  intros I H. step_cases c m H; destruct I as (M & I);
+  (split; [intros; simpl in *; try discriminate; try congruence; auto;
+           try (destruct w, d; simpl in *; discriminate); try (apply M; auto; fail) |]);
   destruct (rbm tr) as [[|[|k]]|]; simpl in *;
   try contradiction;
   try (destruct I as (I1 & I2 & I3 & I4 & I5 & I6));
@@ -158,6 +176,8 @@ Proof.
   all: try (specialize (I6 eq_refl); congruence).
   all: try (destruct (I4 eq_refl); congruence).
   all: try (destruct (I3 eq_refl); congruence).
+  all: destruct d; [specialize (M eq_refl); discriminate|]; rewrite (I1 eq_refl) in *; simpl in *; auto.
+  all: rewrite (I6 eq_refl) in *; discriminate.
 Qed.
 
 (* ---------- all invariants together; goodness of every history prefix ---------- *)
@@ -178,10 +198,10 @@ Proof. induction 1; eauto using inv_init, inv_step. Qed.
 Lemma inv_le1 c : Inv c ->
   le1 (pend (c_trace c)) = true /\ le1 (rbm (c_trace c)) = true /\ le1 (tdm (c_trace c)) = true.
 Proof.
-  destruct c as [p r s t n w tr]. intros (_ & B & C & D). simpl in *.
+  destruct c as [p r s t n w d tr]. intros (_ & B & C & D). simpl in *.
   repeat split.
   - destruct (pend tr) as [[|[|k]]|]; auto. lia.
-  - destruct (rbm tr) as [[|[|k]]|]; auto.
+  - destruct D as (_ & D). destruct (rbm tr) as [[|[|k]]|]; auto.
   - destruct (tdm tr) as [[|[|k]]|]; auto. lia.
 Qed.
 
@@ -189,14 +209,16 @@ Lemma eqb_refl_ev k : ev_eqb (EStep k) (EStep k) = true.
 Proof. simpl. apply Nat.eqb_refl. Qed.
 
 (* a move appends at most one event, and that event is admissible after the old trace *)
-Lemma trace_step c m c' : Inv1 c -> step c m = Some c' ->
+Lemma trace_step c m c' : Inv1 c -> InvTd c -> step c m = Some c' ->
   c_trace c' = c_trace c \/ exists e, c_trace c' = e :: c_trace c /\ head_ok e (c_trace c) = true.
 Proof.
-  intros I H. step_cases c m H; auto; right; eexists; split; try reflexivity; simpl; auto;
-  destruct I as (I1 & I2 & I3 & I4 & I5); simpl in *.
+  intros I ITd H. step_cases c m H; auto; right; eexists; split; try reflexivity; simpl; auto;
+  destruct I as (I1 & I2 & I3 & I4 & I5 & I6 & I7 & I8 & I9); simpl in *.
   all: try (destruct r; auto; destruct (rae tr) as [[|]|]; auto; specialize (I3 eq_refl); discriminate).
   - destruct I4 as [_ I4]. destruct (last_thr tr) as [[]|]; simpl; auto.
   - rewrite I5. destruct n; simpl in I4; rewrite I4; simpl; auto. rewrite Nat.eqb_refl. auto.
+  - rewrite I4. simpl. unfold exit_cause. destruct (tdm tr); auto.
+    destruct (I9 eq_refl) as [X|X]; [congruence|rewrite X; auto].
 Qed.
 
 Lemma all_good_cons e tr : all_good (e :: tr) = good (e :: tr) && all_good tr.
@@ -207,7 +229,7 @@ Proof.
   induction 1 as [|c m c' R IH H]; [reflexivity|].
   pose proof (reachable_inv _ R) as Ic.
   pose proof (inv_step _ _ _ Ic H) as Ic'.
-  destruct (trace_step _ _ _ (proj1 Ic) H) as [E|(e & E & Hh)].
+  destruct (trace_step _ _ _ (proj1 Ic) (proj1 (proj2 Ic)) H) as [E|(e & E & Hh)].
   - rewrite E. exact IH.
   - destruct (inv_le1 _ Ic') as (P1 & P2 & P3). rewrite E in *.
     rewrite all_good_cons, IH. unfold good. rewrite P1, P2, P3, Hh. reflexivity.
@@ -240,7 +262,7 @@ Qed.
 Lemma runreq_In tr : runreq tr = true -> In (ECmd Run) tr.
 Proof.
   induction tr as [|e tr IH]; simpl; [discriminate|].
-  destruct e as [| | |[]| |]; auto.
+  destruct e as [| | |[]| | |]; auto.
 Qed.
 
 Lemma opt_is_eq o e : is_thread_event e = true -> opt_is o e = true -> o = Some e.
@@ -274,7 +296,7 @@ Lemma epochs c pre e suf :
 Proof.
   intros R E. pose proof (reachable_good_suffix _ _ _ R E) as G.
   apply good_parts in G. destruct G as (_ & _ & _ & G). simpl in G.
-  destruct e as [|k| | | |]; simpl in *; auto.
+  destruct e as [|k| | | | |]; simpl in *; auto.
   - intros X. rewrite X in G. discriminate.
   - destruct k; apply andb_true_iff in G; destruct G as [G _]; apply opt_is_eq in G; auto.
   - destruct (last_thr suf) as [[]|]; simpl in G; try discriminate; eauto.
@@ -298,7 +320,7 @@ Lemma pend_seg seg k suf : (k = Reset \/ k = Reboot) -> no_init_exit seg ->
 Proof.
   intros K. induction seg as [|e seg IH]; simpl.
   - intros _. destruct K; subst; destruct (pend suf); eauto with arith.
-  - destruct e as [| | |[]| |]; simpl; try tauto; intros N;
+  - destruct e as [| | |[]| | |]; simpl; try tauto; intros N;
     destruct (IH N) as (n & -> & L); simpl; eauto with arith.
 Qed.
 
@@ -318,7 +340,7 @@ Lemma rbm_seg seg suf : no_run_teardown seg ->
 Proof.
   induction seg as [|e seg IH]; simpl.
   - intros _. destruct (rbm suf); eauto with arith.
-  - destruct e as [| | |[]| |]; simpl; try tauto; intros N;
+  - destruct e as [| | |[]| | |]; simpl; try tauto; intros N;
     destruct (IH N) as (n & -> & L); simpl; eauto with arith.
 Qed.
 
@@ -338,7 +360,7 @@ Lemma tdm_seg seg suf :
 Proof.
   induction seg as [|e seg IH]; simpl.
   - destruct (tdm suf); eauto with arith.
-  - destruct IH as (n & P & L). destruct e as [| | |[]| |]; simpl; rewrite P; simpl; eauto with arith.
+  - destruct IH as (n & P & L). destruct e as [| | |[]| | |]; simpl; rewrite P; simpl; eauto with arith.
 Qed.
 
 (* 4. after teardown has been requested: at most one further initialisation or step, ever *)
@@ -361,7 +383,7 @@ Proof.
   - intros _. split; auto. intros ? [].
   - intros H. apply andb_true_iff in H. destruct H as [G A].
     destruct (IH A) as (L & Q). apply good_parts in G. destruct G as (_ & _ & _ & G).
-    destruct e as [|k| | | |]; simpl in *; try (destruct k); try rewrite L in G; simpl in G; try discriminate;
+    destruct e as [|k| | | | |]; simpl in *; try (destruct k); try rewrite L in G; simpl in G; try discriminate;
       (split; [exact L | intros x [<-|X]; auto]).
 Qed.
 
@@ -369,7 +391,7 @@ Lemma rae_seg post suf : rae (post ++ EExit :: suf) = Some false \/ In (ECmd Run
 Proof.
   induction post as [|e post IH]; simpl; auto.
   destruct IH as [IH|IH]; auto.
-  destruct e as [| | |[]| |]; simpl; auto.
+  destruct e as [| | |[]| | |]; simpl; auto.
 Qed.
 
 Lemma exited_quiescent c post suf :
@@ -381,12 +403,36 @@ Proof.
   intros R E. pose proof (reachable_all_good _ R) as A. rewrite E in A.
   split; [apply (after_exit_silent _ _ A)|]. split.
   - intros Hr. destruct (rae_seg post suf) as [X|X]; auto.
-    pose proof (reachable_inv _ R) as (I1 & _). destruct c as [p r s t n w tr]; simpl in *.
+    pose proof (reachable_inv _ R) as (I1 & _). destruct c as [p r s t n w d tr]; simpl in *.
     destruct I1 as (_ & _ & I3 & _). subst tr. rewrite (I3 X) in Hr. discriminate.
   - intros post2 post1 ->. rewrite <- app_assoc in A. apply all_good_app in A. simpl in A.
     apply andb_true_iff in A. destruct A as [G _]. apply good_parts in G.
     destruct G as (_ & _ & _ & G). simpl in G.
     destruct (rae_seg post1 suf) as [X|X]; auto. rewrite X in G. discriminate.
+Qed.
+
+Lemma tdm_some_In tr : tdm tr <> None -> exists seg suf, tr = seg ++ ECmd Teardown :: suf.
+Proof.
+  induction tr as [|e tr IH]; simpl; [congruence|].
+  destruct e as [| | |k| | |]; try (intros H;
+    assert (X : tdm tr <> None) by (destruct (tdm tr); simpl in *; congruence);
+    destruct (IH X) as (seg & suf & ->); eexists (_ :: seg), suf; reflexivity).
+  destruct k; try (intros H; destruct (IH H) as (seg & suf & ->); eexists (_ :: seg), suf; reflexivity).
+  intros _. exists [], tr. reflexivity.
+Qed.
+
+(* 6. the thread ends only because teardown was requested or run_condition() answered false *)
+Lemma exit_cause_ok c post suf :
+  reachable c -> c_trace c = post ++ EExit :: suf ->
+  In (ECmd Teardown) suf \/ last_rc suf = Some false.
+Proof.
+  intros R E. pose proof (reachable_good_suffix _ _ _ R E) as G.
+  apply good_parts in G. destruct G as (_ & _ & _ & G). simpl in G.
+  apply andb_true_iff in G. destruct G as (_ & G). unfold exit_cause in G.
+  destruct (tdm suf) eqn:T.
+  - left. assert (X : tdm suf <> None) by congruence.
+    destruct (tdm_some_In _ X) as (seg & suf' & ->). apply in_or_app. right. left. reflexivity.
+  - right. destruct (last_rc suf) as [[|]|]; auto; discriminate.
 Qed.
 
 Lemma exited_pc c : reachable c ->
@@ -421,20 +467,23 @@ Lemma dist_0 p : dist p = 0 <-> p = PExited.
 Proof. destruct p; simpl; split; intros; try discriminate; auto. Qed.
 
 Definition is_thread_move (m : move) : bool :=
-  match m with MThread _ | MSpurious => true | MCmd _ => false end.
+  match m with MThread _ | MSpurious => true | MCmd _ | MRebootEnd => false end.
 
 Fixpoint thread_moves (ms : list move) : nat :=
   match ms with [] => 0 | m :: t => (if is_thread_move m then 1 else 0) + thread_moves t end.
 
-(* the thread is never disabled while teardown is requested and it has not exited *)
+(* the thread is never disabled while teardown is requested and it has not exited
+   (unless the controller is inside reboot(), which it can always complete) *)
 Lemma td_thread_enabled c b : reachable c -> c_td c = true -> c_pc c <> PExited ->
-  exists c', step c (MThread b) = Some c'.
+  (c_mid c = false -> exists c', step c (MThread b) = Some c')
+  /\ (c_mid c = true -> exists c', step c MRebootEnd = Some c' /\ c_mid c' = false).
 Proof.
   intros R T N. pose proof (reachable_inv _ R) as (I1 & _).
-  destruct c as [p r s t n w tr]; simpl in *. destruct I1 as (_ & I2 & _). subst t.
+  destruct c as [p r s t n w d tr]; simpl in *. destruct I1 as (_ & I2 & _). subst t.
+  split; intros ->; [|eauto].
   destruct p; simpl; eauto; try congruence.
   - rewrite orb_true_r. eauto.
-  - destruct w; eauto. destruct (I2 eq_refl eq_refl); discriminate.
+  - destruct w; simpl; eauto. destruct (I2 eq_refl eq_refl eq_refl); discriminate.
   - rewrite orb_true_r. eauto.
 Qed.
 
@@ -480,24 +529,16 @@ Proof.
     exists (p2 ++ p1). rewrite E2, E1, app_assoc. reflexivity.
 Qed.
 
-Lemma tdm_some_In tr : tdm tr <> None -> exists seg suf, tr = seg ++ ECmd Teardown :: suf.
-Proof.
-  induction tr as [|e tr IH]; simpl; [congruence|].
-  destruct e as [| | |k| |]; try (intros H;
-    assert (X : tdm tr <> None) by (destruct (tdm tr); simpl in *; congruence);
-    destruct (IH X) as (seg & suf & ->); eexists (_ :: seg), suf; reflexivity).
-  destruct k; try (intros H; destruct (IH H) as (seg & suf & ->); eexists (_ :: seg), suf; reflexivity).
-  intros _. exists [], tr. reflexivity.
-Qed.
-
 Lemma count_steps_app a b : count_steps (a ++ b) = count_steps a + count_steps b.
 Proof. induction a as [|[] a IH]; simpl; lia. Qed.
 
 (* bounded exit, clause (a): teardown requested *)
 Lemma bounded_exit_teardown c ms c' :
   reachable c -> c_td c = true -> run_moves c ms = Some c' ->
-  (* never disabled before it has exited *)
-  (c_pc c' <> PExited -> forall b, exists c'', step c' (MThread b) = Some c'')
+  (* never disabled before it has exited (a controller inside reboot() can always complete it) *)
+  (c_pc c' <> PExited -> forall b,
+     (c_mid c' = false -> exists c'', step c' (MThread b) = Some c'')
+     /\ (c_mid c' = true -> exists c'', step c' MRebootEnd = Some c'' /\ c_mid c'' = false))
   (* at most exit_bound own moves, and then it has exited *)
   /\ thread_moves ms <= dist (c_pc c) /\ dist (c_pc c) <= exit_bound
   /\ (dist (c_pc c) <= thread_moves ms -> c_pc c' = PExited)
@@ -511,7 +552,7 @@ Proof.
   destruct (run_trace_ext _ _ _ H) as (post & E). exists post. split; auto.
   pose proof (reachable_inv _ R) as (_ & ITd & _).
   assert (X : tdm (c_trace c) <> None).
-  { destruct c as [p r s t n w tr]; simpl in *. destruct (tdm tr); congruence. }
+  { destruct c as [p r s t n w d tr]; simpl in *. destruct (tdm tr); congruence. }
   destruct (tdm_some_In _ X) as (seg & suf & Etr).
   assert (E2 : c_trace c' = [] ++ (post ++ seg) ++ ECmd Teardown :: suf).
   { rewrite E, Etr, app_assoc. reflexivity. }
@@ -536,14 +577,14 @@ Definition rc_false (m : move) : bool :=
 Definition may_step (p : pc) : nat :=
   match p with PC1b | PC1c | PStep => 1 | _ => 0 end.
 
-Lemma rcf_enabled c d : distb (c_pc c) = Some d -> c_pc c <> PExited ->
+Lemma rcf_enabled c dd : distb (c_pc c) = Some dd -> c_pc c <> PExited ->
   exists c', step c (MThread false) = Some c'.
 Proof.
-  destruct c as [p r s t n w tr]; simpl. destruct p; simpl; intros; try discriminate; eauto; congruence.
+  destruct c as [p r s t n w d tr]; simpl. destruct p; simpl; intros; try discriminate; eauto; congruence.
 Qed.
 
-Lemma rcf_move c m c' d : distb (c_pc c) = Some d -> rc_false m = true -> step c m = Some c' ->
-  exists d' post, distb (c_pc c') = Some d' /\ d' + (if is_thread_move m then 1 else 0) <= d
+Lemma rcf_move c m c' dd : distb (c_pc c) = Some dd -> rc_false m = true -> step c m = Some c' ->
+  exists d' post, distb (c_pc c') = Some d' /\ d' + (if is_thread_move m then 1 else 0) <= dd
     /\ c_trace c' = post ++ c_trace c /\ count_steps post + may_step (c_pc c') <= may_step (c_pc c).
 Proof.
   intros D F H. step_cases c m H; simpl in *; try discriminate;
@@ -606,11 +647,17 @@ Proof.
   apply thread_token_reachable; auto.
 Qed.
 
+Lemma complete_reboot_reachable c : reachable c -> reachable (complete_reboot c).
+Proof.
+  intros R. unfold complete_reboot. destruct (c_mid c); auto.
+  destruct (step c MRebootEnd) as [c1|] eqn:E; auto. eapply R_step; eauto.
+Qed.
+
 Lemma do_token_reachable c t : reachable c -> reachable (do_token c t).
 Proof.
   intros R. destruct t; unfold do_token; auto using thread_token_reachable.
   destruct (step c (MCmd k)) as [c1|] eqn:E; auto.
-  apply wake_reachable. eapply R_step; eauto.
+  apply wake_reachable. apply complete_reboot_reachable. eapply R_step; eauto.
 Qed.
 
 Lemma run_word_reachable w c : reachable c -> reachable (run_word c w).
@@ -647,53 +694,81 @@ Proof.
   - intros (ms & H). eapply run_moves_reachable; eauto. constructor.
 Qed.
 
-(* the thread is always brought to a schedule point *)
-Lemma settle_observable c : observable (c_pc (settle 8 c)) = true.
-Proof. destruct c as [p r s t n w tr]. destruct p, r, s, t; reflexivity. Qed.
+(* the thread is always brought to a schedule point; between tokens the controller is never inside reboot() *)
+Definition wordstate (c : config) : Prop := observable (c_pc c) = true /\ c_mid c = false.
 
-Lemma thread_token_observable b c : observable (c_pc c) = true -> observable (c_pc (thread_token b c)) = true.
+Lemma tstep_mid b c c' : tstep b c = Some c' -> c_mid c' = c_mid c.
 Proof.
-  intros O. unfold thread_token. destruct (step c (MThread b)); auto using settle_observable.
+  destruct c as [p r s t n w d tr]. destruct p; simpl; intros H; split_ifs H; try discriminate H;
+  injection H as <-; reflexivity.
+Qed.
+
+Lemma settle_mid f c : c_mid (settle f c) = c_mid c.
+Proof.
+  revert c. induction f as [|f IH]; simpl; intros c; auto.
+  destruct (observable (c_pc c)); auto.
+  destruct (tstep false c) as [c1|] eqn:E; auto. rewrite IH. eapply tstep_mid; eauto.
+Qed.
+
+Lemma settle_observable c : c_mid c = false -> observable (c_pc (settle 8 c)) = true.
+Proof. destruct c as [p r s t n w d tr]. simpl. intros ->. destruct p, r, s, t; reflexivity. Qed.
+
+Lemma thread_token_ws b c : wordstate c -> wordstate (thread_token b c).
+Proof.
+  intros (O & M). unfold thread_token. change (step c (MThread b)) with (tstep b c).
+  destruct (tstep b c) as [c1|] eqn:E; [|split; auto].
+  pose proof (tstep_mid _ _ _ E) as M1. rewrite M in M1.
+  split; [apply settle_observable; auto | rewrite settle_mid; auto].
 Qed.
 
 Lemma cmd_pc c k c' : step c (MCmd k) = Some c' -> c_pc c' = c_pc c.
 Proof.
-  intros H. unfold step, step_with in H. destruct c as [p r s t n w tr].
+  intros H. unfold step, step_with in H. destruct c as [p r s t n w d tr].
   destruct k, p; simpl in H; split_ifs H; try discriminate H; injection H as <-; reflexivity.
 Qed.
 
-Lemma do_token_observable c t : observable (c_pc c) = true -> observable (c_pc (do_token c t)) = true.
+Lemma complete_reboot_ws c : observable (c_pc c) = true -> wordstate (complete_reboot c).
 Proof.
-  intros O. destruct t; unfold do_token; auto using thread_token_observable.
+  unfold complete_reboot, wordstate. destruct c as [p r s t n w d tr]; simpl. destruct d; simpl; auto.
+Qed.
+
+Lemma wake_ws c : wordstate c -> wordstate (wake c).
+Proof.
+  intros W. unfold wake. destruct (c_pc c); auto. destruct (c_woken c); auto using thread_token_ws.
+Qed.
+
+Lemma do_token_ws c t : wordstate c -> wordstate (do_token c t).
+Proof.
+  intros W. destruct t; unfold do_token; auto using thread_token_ws.
   destruct (step c (MCmd k)) as [c1|] eqn:E; auto.
-  pose proof (cmd_pc _ _ _ E) as P. unfold wake. rewrite P.
-  destruct (c_pc c) eqn:Q; try (rewrite P; auto; fail).
-  destruct (c_woken c1); [apply thread_token_observable|]; rewrite P; auto.
+  apply wake_ws. apply complete_reboot_ws. rewrite (cmd_pc _ _ _ E). apply W.
 Qed.
 
-Lemma run_word_observable w c : observable (c_pc c) = true -> observable (c_pc (run_word c w)) = true.
+Lemma run_word_ws w c : wordstate c -> wordstate (run_word c w).
 Proof.
-  revert c. induction w as [|t w IH]; simpl; intros c O; auto using do_token_observable.
+  revert c. induction w as [|t w IH]; simpl; intros c O; auto using do_token_ws.
 Qed.
 
-Lemma free_run_exits f c : reachable c -> c_td c = true -> dist (c_pc c) <= f -> c_pc (free_run f c) = PExited.
+Lemma free_run_exits f c : reachable c -> c_td c = true -> c_mid c = false -> dist (c_pc c) <= f ->
+  c_pc (free_run f c) = PExited.
 Proof.
-  revert c. induction f as [|f IH]; simpl; intros c R T D.
+  revert c. induction f as [|f IH]; simpl; intros c R T M D.
   - apply dist_0. lia.
   - change (tstep true c) with (step c (MThread true)).
     destruct (step c (MThread true)) as [c1|] eqn:E.
     + destruct (td_move _ _ _ T E) as (T1 & D1). simpl in D1.
-      apply IH; auto; [eapply R_step; eauto | lia].
+      apply IH; auto; [eapply R_step; eauto | rewrite (tstep_mid _ _ _ E); auto | lia].
     + destruct (c_pc c) eqn:P; auto;
-        destruct (td_thread_enabled c true R T) as (c2 & X); try congruence.
+        destruct (td_thread_enabled c true R T) as (X & _); try congruence;
+        destruct (X M) as (c2 & Y); congruence.
 Qed.
 
 Lemma free_run_exited f c : c_pc c = PExited -> free_run f c = c.
-Proof. destruct f; simpl; auto. destruct c as [p r s t n w tr]; simpl. intros ->. reflexivity. Qed.
+Proof. destruct f; simpl; auto. destruct c as [p r s t n w d tr]; simpl. intros ->. reflexivity. Qed.
 
 Lemma tstep_td b c c' : tstep b c = Some c' -> c_td c' = c_td c.
 Proof.
-  destruct c as [p r s t n w tr]. destruct p; simpl; intros H; split_ifs H; try discriminate H;
+  destruct c as [p r s t n w d tr]. destruct p; simpl; intros H; split_ifs H; try discriminate H;
   injection H as <-; reflexivity.
 Qed.
 
@@ -713,36 +788,80 @@ Qed.
 Lemma wake_td c : c_td (wake c) = c_td c.
 Proof. unfold wake. destruct (c_pc c); auto. destruct (c_woken c); auto using thread_token_td. Qed.
 
-Lemma teardown_token_td c : mutex_free (c_pc c) = true -> c_td (do_token c (KCmd Teardown)) = true.
+Lemma teardown_token_td c : mutex_free (c_pc c) = true -> c_mid c = false -> c_td (do_token c (KCmd Teardown)) = true.
 Proof.
-  intros M. unfold do_token. destruct c as [p r s t n w tr]. simpl in *. rewrite M.
+  intros M N. unfold do_token. destruct c as [p r s t n w d tr]. simpl in *. subst d. rewrite M. simpl.
   rewrite wake_td. reflexivity.
 Qed.
 
 (* end of every schedule word: teardown at the point reached, then the thread
    running freely with run_condition = true, always exits; wait is enabled *)
-Lemma finish_exits c : reachable c -> observable (c_pc c) = true ->
+Lemma finish_exits c : reachable c -> wordstate c ->
   c_pc (finish c) = PExited /\ exists tr, c_trace (finish c) = ECmd Wait :: tr.
 Proof.
-  intros R O. unfold finish.
+  intros R W. unfold finish.
   set (c1 := match c_pc c with PHeld => thread_token true c | _ => c end).
   assert (R1 : reachable c1) by (unfold c1; destruct (c_pc c); auto using thread_token_reachable).
-  assert (O1 : observable (c_pc c1) = true /\ c_pc c1 <> PHeld).
-  { unfold c1. destruct (c_pc c) eqn:P; try (rewrite P; split; [auto|discriminate]).
-    split; [apply thread_token_observable; rewrite P; auto|].
-    unfold thread_token. destruct c as [p r s t n w tr]; simpl in *; subst p; simpl.
+  assert (W1 : wordstate c1) by (unfold c1; destruct (c_pc c); auto using thread_token_ws).
+  assert (N1 : c_pc c1 <> PHeld).
+  { unfold c1. destruct (c_pc c) eqn:P; try (rewrite P; discriminate).
+    unfold thread_token. destruct c as [p r s t n w d tr]; simpl in *; subst p; simpl.
     destruct (r || t); simpl; discriminate. }
-  destruct O1 as (O1 & N1).
+  assert (M2 : forall t, c_mid (do_token c1 t) = false) by (intros t; apply (proj2 (do_token_ws _ t W1))).
+  destruct W1 as (O1 & M1).
   set (c2 := match c_pc c1 with PExited => c1 | _ => do_token c1 (KCmd Teardown) end).
   assert (X : reachable c2 /\ (c_pc c2 = PExited \/ c_td c2 = true)).
   { unfold c2. destruct (c_pc c1) eqn:P; try (split; [auto|left; auto]; fail);
       try discriminate O1; try congruence;
       (split; [apply do_token_reachable; auto|right]);
-      apply teardown_token_td; rewrite P; reflexivity. }
+      apply teardown_token_td; auto; rewrite P; reflexivity. }
   destruct X as (R2 & X).
   assert (E3 : c_pc (free_run 40 c2) = PExited).
   { destruct X as [X|X]; [rewrite free_run_exited; auto|].
-    apply free_run_exits; auto. pose proof (dist_bound (c_pc c2)). unfold exit_bound in *. lia. }
-  remember (free_run 40 c2) as c3. destruct c3 as [p r s t n w tr]; simpl in *. subst p. simpl.
-  split; eauto.
+    apply free_run_exits; auto.
+    - unfold c2. destruct (c_pc c1); auto.
+    - pose proof (dist_bound (c_pc c2)). unfold exit_bound in *. lia. }
+  remember (free_run 40 c2) as c3. destruct c3 as [p r s t n w d tr]; simpl in *. subst p.
+  unfold do_token, step, step_with. simpl. unfold complete_reboot. simpl.
+  destruct d; simpl; eauto.
+Qed.
+
+(* ---------- the relational presentation and the executable step function agree ---------- *)
+Lemma sstep_step c m c' : sstep c m c' -> step c m = Some c'.
+Proof.
+  destruct 1; simpl; try reflexivity;
+  try (destruct H as [-> | ->]; simpl; rewrite H0; reflexivity);
+  try (rewrite H; reflexivity).
+Qed.
+
+Lemma step_sstep c m c' : step c m = Some c' -> sstep c m c'.
+Proof.
+  intros H. destruct c as [p r s t n w d tr]; unfold step, step_with in H.
+  destruct m as [b| |k|]; [ | | destruct k | ]; destruct p; simpl in H;
+  split_ifs H; try discriminate H; injection H as <-;
+  repeat match goal with
+         | X : _ && _ = true |- _ => apply andb_true_iff in X; destruct X
+         | X : negb _ = true |- _ => apply negb_true_iff in X; subst
+         end;
+  try (constructor; auto; fail);
+  try (apply (S_pass _ PHeld); auto; fail); try (apply (S_pass _ PRecheck); auto; fail);
+  try (apply (S_block _ PHeld); auto; fail); try (apply (S_block _ PRecheck); auto; fail).
+  all: try (apply (S_rc1 true)); try (apply (S_rc1 false)); try (apply (S_rc2 true)); try (apply (S_rc2 false)).
+  all: try (apply (S_td1 b _ _ true)); try (apply (S_td1 b _ _ false)).
+  all: try (apply (S_rs1 b _ true)); try (apply (S_rs1 b _ false)).
+  all: try (apply (S_run2 b true)); try (apply (S_run2 b false)).
+  all: try (apply (S_rs2 b _ true)); try (apply (S_rs2 b _ false)).
+  all: try (apply (S_td2 b _ _ true)); try (apply (S_td2 b _ _ false)).
+Qed.
+
+Lemma sstep_iff_step c m c' : sstep c m c' <-> step c m = Some c'.
+Proof. split; [apply sstep_step | apply step_sstep]. Qed.
+
+Lemma reachable_rel_iff c : reachable_rel c <-> reachable c.
+Proof.
+  split.
+  - induction 1 as [|c m c' R IH H]; [constructor|].
+    apply (R_step _ c m); [exact IH | apply sstep_step; exact H].
+  - induction 1 as [|c m c' R IH H]; [constructor|].
+    apply (RR_step c m); [exact IH | apply step_sstep; exact H].
 Qed.
